@@ -7,7 +7,7 @@ from .u6_root import prelude_types
 from .u9_dispatch import emit_json_struct
 
 NAME = 'u22_encode'
-PROPS = ['C03', 'C01', 'C13', 'C07', 'C05']
+PROPS = ['C03', 'C01', 'C13', 'C07', 'C14', 'C05']
 E = 'src/encoder.rs'
 T = 'src/types.rs'
 J = 'src/jsontypes.rs'
